@@ -33,7 +33,7 @@ func (c10) Rule() string {
 }
 func (c10) Batches(string) int { return 32 }
 func (c10) Required(string) []string {
-	return []string{"sessions", "fragments_compared", "exhaustive_cut_scripts", "cross_fragment_name_use", "tag.funcdef", "tag.assign-captured", "tag.const", "tag.import", "tag.try", "opts.noopt", "opts.limit2", "fragment_errors_compared"}
+	return []string{"sessions", "fragments_compared", "exhaustive_cut_scripts", "cross_fragment_name_use", "tag.funcdef", "tag.assign-captured", "tag.const", "tag.import", "tag.try", "opts.noopt", "opts.limit2", "fragment_errors_compared", "nil_globals_sessions"}
 }
 func (c10) Assumptions() []string {
 	return []string{"a fresh Eval of the concatenation is the reference (both sides use Eval, so the 'last expression value' convention is identical)", "error positions are not compared (line numbers legitimately differ)"}
@@ -108,6 +108,10 @@ type c10session struct {
 
 func newC10session(kind string, mm *ugo.ModuleMap) *c10session {
 	rec := &canon.Recorder{}
+	if strings.HasSuffix(kind, "+nilglobals") {
+		// the host passes no globals map: the session itself has to keep one for all its fragments
+		return &c10session{ev: ugo.NewEval(c10opts(strings.TrimSuffix(kind, "+nilglobals"), mm), nil), rec: rec, g: nil}
+	}
 	g := ugo.Map{"L": rec.Func(), "G": ugo.Int(3)}
 	return &c10session{ev: ugo.NewEval(c10opts(kind, mm), g), rec: rec, g: g}
 }
@@ -474,6 +478,34 @@ func (m c10) Run(c *core.Ctx) {
 			continue
 		}
 		run(src, mod0, nil, []string{"fixed"}, false)
+	}
+	// sessions created without a globals map
+	for _, src := range []string{
+		"global counter\ncounter = 41\ninc := func() { counter++; return counter }\ninc()\n[counter, globals()[\"counter\"]]",
+		"global (a, b)\na = [1]\nf := func() { b = a; a = append(a, 2); return len(a) }\nf()\nglobals().c = 7\nglobal c\n[a, b, c, f()]",
+		"x := 1\nglobal g\ng = x\nx = 2\ng2 := func() { return [g, x] }\ng = 5\ng2()",
+	} {
+		idx++
+		if idx%c.NBatch != c.Batch {
+			continue
+		}
+		src := src
+		if !c.Begin(func() string { return "nil-globals session\n" + src }) {
+			continue
+		}
+		stmts, infos := topLevelStatements(src)
+		if len(stmts) < 2 {
+			c.Inconclusive("nil-globals script does not parse")
+			continue
+		}
+		for mk := uint64(0); mk < 1<<uint(len(stmts)-1); mk++ {
+			for _, k := range optKinds {
+				if m.checkCutting(c, stmts, infos, mk, nil, nil, k+"+nilglobals") {
+					c.Nontrivial(fmt.Sprintf("nilglobals %x/%x/%s", hashStr(src), mk, k))
+				}
+				c.Count("nil_globals_sessions")
+			}
+		}
 	}
 	nprog := c.Pick(40, 1500)
 	o := gen.Opts{MaxStmts: 14, MaxDepth: 3, ExprDepth: 2, Try: 0.5, Throw: 0.1, Funcs: 0.9, Shadow: 0.2, LogProb: 0.2, Consts: 0.3, Globals: true,
